@@ -1,0 +1,142 @@
+//go:build verif
+
+// Contracts for the ordering, equality and hashing methods of the frozen-backed and wrapper values
+// (properties C06, C02, C07), worker x-c06. Comments only; read by /verif/engine (govc).
+// Vocabulary: /verif/specs/72_order2.spec|.smt2 (+ 35_sets, 40_order).
+package rel
+
+//@ globalfact negateTag negateTag == negTagS
+
+// ==== *GenericTuple (value_tuple.go) ====================================================================
+
+// (moved from verif_contracts_c10.go; the C10 tags and nil-preconditions are kept)
+//@ func (*GenericTuple).Count(t;)
+//@   tags C10, C06
+//@   assigns nothing
+//@   requires t != nil
+//@   ensures[C06] cnt: result == tmcard(tr(t))
+
+//@ func (*GenericTuple).Get(t; name)
+//@   tags C10, C06
+//@   assigns nothing
+//@   requires t != nil
+//@   ensures[C06] get: result.1 == tmhas(tr(t), name) && (result.1 ==> result.0 == tmget(tr(t), name)) && (!result.1 ==> result.0 == nil)
+
+// Kind: 300, except the wrapper (@neg: x) whose kind is -kind(x)  (40_order.smt2 axiom, now proved against the code)
+//@ func (*GenericTuple).Kind(t)
+//@   tags C06, C10
+//@   assigns nothing
+//@   requires repTuple(t)
+//@   ensures[C06] refines: result == (negInner(box(t)) == nil ? 300 : 0 - kind(negInner(box(t)))) && result == kind(box(t))    // one clause: the kind axiom of generic tuples is keyed on negInner
+//@   ensures[C06] exact: result == ((tmcard(tr(t)) == 1 && tmhas(tr(t), negTagS)) ? 0 - kind(tmget(tr(t), negTagS)) : 300)
+
+// Less. Claimed: the kind rule; the wrapper branch is the STRICT reversal of the payload order
+// (-a < -b iff b < a); the type assertions are safe outside the doubly-wrapped region (finding of w-c06).
+//@ func (*GenericTuple).Less(t; v)
+//@   tags C06, C10
+//@   requires repTuple(t) && aValue(v) && repTupleV(v)
+//@   ensures[C06] kindrule: kind(box(t)) != kind(v) ==> result == (kind(box(t)) < kind(v))
+//@   ensures[C06] negexact: kind(box(t)) == kind(v) && negInner(box(t)) != nil ==> result == less(negInner(v), negInner(box(t)))
+//@   ensures[C06] refines: (kind(box(t)) != kind(v) || negInner(box(t)) != nil) ==> result == less(box(t), v)
+
+// method-level order lemmas for the wrapper (@neg: x), through the contract of Less (payload order assumed well-behaved
+// on the two payloads involved; doubly wrapped receivers excluded: finding)
+//@ lemma[C06] c06_neg_irrefl(a: *rel.GenericTuple)
+//@   requires repTuple(a) && negInner(box(a)) != nil && !dblNeg(box(a)) && !less(negInner(box(a)), negInner(box(a)))
+//@   call r = (*rel.GenericTuple).Less(a, box(a))
+//@   ensures irrefl: !r
+// (two-call lemmas are not possible here: Less has no frame clause -- TupleOrderedNames caches t.names -- so the heap
+//  link repTuple is lost after the first call; the reversal is stated per direction instead)
+//@ lemma[C06] c06_neg_rev(a: *rel.GenericTuple, b: *rel.GenericTuple)
+//@   requires repTuple(a) && repTuple(b) && negInner(box(a)) != nil && negInner(box(b)) != nil && !dblNeg(box(a)) && kind(box(a)) == kind(box(b))
+//@   call r = (*rel.GenericTuple).Less(a, box(b))
+//@   ensures rev: r == less(negInner(box(b)), negInner(box(a)))
+//@   ensures strict: eq(negInner(box(a)), negInner(box(b))) && tri(negInner(box(b)), negInner(box(a))) ==> !r
+
+// Hash: a function of the name -> value map only (C07: not of enumeration order; C02: Equal tuples hash alike by the
+// assumed extensionality of frozen.Map.Hash, 72_order2.smt2)
+//@ func (*GenericTuple).Hash(t; seed)
+//@   tags C10, C02, C07
+//@   assigns nothing
+//@   requires t != nil
+//@   ensures[C02,C07] maponly: result == tmhash(tr(t), seed)
+//@   ensures[C02] refines: tr(t) == tupRoot(box(t)) ==> result == hashv(box(t), seed)
+//@ lemma[C02] c02_tuple_hash_respects_eq(a: *rel.GenericTuple, b: *rel.GenericTuple, s: Int)
+//@   requires repTuple(a) && repTuple(b) && mapEq(tr(a), tr(b))
+//@   call h1 = (*rel.GenericTuple).Hash(a, s)
+//@   call h2 = (*rel.GenericTuple).Hash(b, s)
+//@   ensures same: h1 == h2
+
+// ==== EmptySet / TrueSet (headers as in verif_contracts_c10.go: merged) ==============================================
+//@ func (EmptySet).Equal(e; i)
+//@   ensures[C02] ext: result == (i is EmptySet) && result == eq(box(e), i)
+//@ func (EmptySet).Hash(e; seed)
+//@   ensures[C02,C07] seedonly: result == seed && result == hashv(box(e), seed)
+//@ func (TrueSet).Equal(arg0; i)
+//@   ensures[C02] ext: result == (i is TrueSet) && result == eq(box(arg0), i)
+
+// ==== Array / Bytes Equal (value_set_array.go, value_set_bytes.go) ===================================================
+//@ func (Array).Equal(a; v)
+//@   tags C02, C10
+//@   assigns nothing
+//@   requires v != nil
+//@   ensures[C02] ext: result == (v is Array && arrEq(a, v.(Array)))
+//@   loop 0 invariant pre: 0 <= $idx && $idx <= len(a.values) && len(a.values) == len(x.values) && forall k in 0..$idx :: ((a.values[k] != nil) == (x.values[k] != nil)) && (a.values[k] != nil ==> eq(a.values[k], x.values[k]))
+//@ func (Bytes).EqualBytes(b; c)
+//@   tags C02, C10
+//@   assigns nothing
+//@   ensures[C02] ext: result == bytesEq(b, c)
+//@ func (Bytes).Equal(b; v)
+//@   tags C02, C10
+//@   assigns nothing
+//@   ensures[C02] ext: result == (v is Bytes && bytesEq(b, v.(Bytes)))
+
+// ==== UnionSet (value_set_union.go) ==================================================================================
+// Equal: extensional over ALL buckets in BOTH directions (same bucket keys, pairwise Equal subsets).
+//@ func (UnionSet).Equal(u; s)
+//@   tags C02, C10
+//@   requires validSet2(box(u)) && s != nil && validSet2(s)
+//@   ensures[C02] ext: result <==> (s is UnionSet && unionEq(ur(box(u)), ur(s)))
+//@   ensures[C02] refines: result == eq(box(u), s)
+//@   loop 0 invariant it: i != nil && mitset[i.i] == ur(box(u)) && smcard(ur(box(u))) == smcard(ur(s))
+//@   loop 0 invariant seen: forall k: Str :: mitseen[i.i][k] ==> smhas(ur(s), k) && eq(smget(ur(box(u)), k), smget(ur(s), k))
+
+// ==== Less of the frozen-backed sets: kind rule + "enumerates through the ORDERED enumerator" (C07) ===================
+// Not claimed for these four: an exact lexicographic postcondition (needs functional contracts of NamesSlice.Less/Equal,
+// OrderedElements, OrderedValueEnumerator's sort; see notes/x-c06.md).
+
+// ---- Relation (value_set_rel.go)
+//@ func (*positionalRelation).OrderedRange(r; p)
+//@   tags C07, C10
+//@   assigns fresh-only
+//@   modifies itord
+//@   requires r != nil
+//@   ensures[C07] ord: result != nil && result.i != nil && itord[result.i] && (forall j: Val :: j != result.i ==> itord[j] == old(itord)[j])
+//@ func (Relation).ArrayEnumerator(r)
+//@   tags C07, C10
+//@   assigns fresh-only
+//@   modifies itord
+//@   requires r.rows != nil
+//@   ensures[C07] ord: result is *relationEnumerator && result.(*relationEnumerator) != nil && result.(*relationEnumerator).i != nil && result.(*relationEnumerator).i.i != nil && itord[result.(*relationEnumerator).i.i]
+//@   ensures[C07] others: forall j: Val :: j != result.(*relationEnumerator).i.i ==> itord[j] == old(itord)[j]
+//@ func (Relation).Less(r; v)
+//@   tags C06, C07, C10
+//@   requires aValue(v) && r.rows != nil && (v is Relation ==> v.(Relation).rows != nil)
+//@   ensures[C06] kindrule: kind(v) != 211 ==> result == (211 < kind(v))
+//@   loop 0 invariant ord: i is *relationEnumerator && j is *relationEnumerator && i.(*relationEnumerator) != nil && j.(*relationEnumerator) != nil && i.(*relationEnumerator).i != nil && j.(*relationEnumerator).i != nil && itord[i.(*relationEnumerator).i.i] && itord[j.(*relationEnumerator).i.i]
+
+// ---- UnionSet (value_set_union.go)
+//@ func (UnionSet).Less(u; v)
+//@   tags C06, C07, C10
+//@   requires aValue(v)
+//@   ensures[C06] kindrule: kind(v) != 210 ==> result == (210 < kind(v))
+//@   loop 0 invariant ord: a != nil && b != nil && itord[a] && itord[b]
+
+// (*GenericTuple).Equal: thin stub moved unchanged from verif_contracts_c10.go. The functional contract
+// (`v is *GenericTuple ==> (result <==> tupEq(box(t), v))`, 72_order2.spec) is NOT claimed yet: it needs seen-name ghosts for
+// the attribute enumerators (see notes/x-c06.md).
+//@ func (*GenericTuple).Equal(t; v)
+//@   tags C10
+//@   fnparam * pure
+//@   requires t != nil
+//@   requires v != nil
